@@ -45,7 +45,7 @@ From Coq Require Import ZifyBool.
 Theorem C18_zread_exact : forall n bs x r,
   zread n bs = Ok (x, r) -> length x = n /\ bs = x ++ r.
 Proof.
-  intros n bs x r H. unfold zread in H.
+  intros n bs x r H. rewrite zread_unfold in H.
   destruct (Nat.ltb (length bs) n) eqn:E; [discriminate H|].
   apply Nat.ltb_ge in E. inversion H; subst. split.
   - rewrite firstn_length. lia.
@@ -73,7 +73,7 @@ Qed.
 Lemma zread_bytes_inv bs x r :
   zread_bytes bs = Ok (x, r) -> exists h, length h = 4%nat /\ bs = h ++ x ++ r.
 Proof.
-  intros H. unfold zread_bytes in H.
+  intros H. rewrite zread_bytes_unfold in H.
   destruct (zread_i32 bs) as [[len r1]|e|w] eqn:E; cbn [bind] in H; try discriminate H.
   unfold zread_i32 in E. apply zread_int_inv in E. destruct E as [h [Hh ->]].
   exists h. split; [exact Hh|].
